@@ -4,7 +4,8 @@ traces (SMACK skips, early/missing/repeated CCS, bad/plaintext Finished, data be
 Tape layout = order of draws in prop() of props/C06/seq12.cc (random target):
   victim_server, sv, cauth, ems-index, resumed(0 = resumed!), seed hi, seed lo, nsel (1..5 one op, 6..9 two ops), ops..., trailer (0,1 = one record), vary (0)"""
 import os
-O_DEL, O_DUP, O_SWAP, O_RETAG, O_SUBST, O_INJECT, O_FLIPFIN, O_PROT, O_MODE, O_CCSBODY, O_SECRET, O_FINFRAG, O_CVFRAG = range(13)
+O_DEL, O_DUP, O_SWAP, O_RETAG, O_SUBST, O_INJECT, O_FLIPFIN, O_PROT, O_MODE, O_CCSBODY, O_SECRET, O_FINFRAG, O_CVFRAG, O_BODYLEN, O_EPOCH, O_SEQ = range(16)
+D12_RSA_GCM, D12_ECDHE_GCM, D10_RSA_CBC, D10_ECDHE_CBC = 6, 7, 8, 9   # DTLS modes (full handshakes only)
 HONEST, ZERO, FF, ARBITRARY, BITFLIP = range(5)   # body of a fragmented Finished / CertificateVerify
 T = dict(HR=0, CH=1, SH=2, NST=3, CERT=4, CERT0=5, SKE=6, CR=7, SHD=8, CV=9, CKE=10, FIN=11, CCS=12, APP=13, WARN=14, UNK=15)
 RSA_GCM, ECDHE_GCM, RSA_CBC256, ECDHE_CBC256, RSA_CBC_11, ECDHE_CBC_11 = range(6)
@@ -116,6 +117,33 @@ CASES = {
     'srv-bogus-ticket-nst-from-client-after-certificate-verify': tape(True, ECDHE_GCM, True, [op(O_INJECT, 4, T['NST'])], cticket=2),
     'srv-ticket-ext-nst-from-client-tls11': tape(True, RSA_CBC_11, False, [op(O_INJECT, 2, T['NST'])], cticket=1),
     'srv-ticket-ext-server-hello-done-from-client': tape(True, RSA_GCM, False, [op(O_INJECT, 2, T['SHD'])], cticket=1),
+    # DTLS (server victim: CH0 CH1 [CERT] CKE [CV] CCS FIN; client victim: HVR0 SH1 CERT2 [SKE] [CR] SHD CCS FIN).  O_BODYLEN arg: even = Finished (0,11,13,36,1,24 bytes by arg>>1),
+    # odd = CertificateVerify (0,4,130,n-1,n+1,n+36); O_EPOCH (pos, 0/1); O_SEQ (pos, 0:+1 1:-1 2:+5)
+    'dtls-srv-legal': tape(True, D12_RSA_GCM, False, []),
+    'dtls-cli-legal-cauth': tape(False, D12_ECDHE_GCM, True, []),
+    'dtls10-srv-legal-cauth': tape(True, D10_RSA_CBC, True, []),
+    'dtls10-cli-legal': tape(False, D10_ECDHE_CBC, False, []),
+    'dtls-srv-empty-finished': tape(True, D12_RSA_GCM, False, [op(O_BODYLEN, 0)]),
+    'dtls-cli-empty-finished': tape(False, D12_RSA_GCM, False, [op(O_BODYLEN, 0)]),
+    'dtls10-srv-empty-finished': tape(True, D10_RSA_CBC, False, [op(O_BODYLEN, 0)]),
+    'dtls10-cli-empty-finished': tape(False, D10_ECDHE_CBC, False, [op(O_BODYLEN, 0)]),
+    'dtls-srv-11-byte-finished': tape(True, D12_ECDHE_GCM, False, [op(O_BODYLEN, 2)]),
+    'dtls-cli-13-byte-finished': tape(False, D12_ECDHE_GCM, False, [op(O_BODYLEN, 4)]),
+    'dtls-srv-36-byte-finished': tape(True, D12_RSA_GCM, True, [op(O_BODYLEN, 6)]),
+    'dtls-srv-empty-certificate-verify': tape(True, D12_RSA_GCM, True, [op(O_BODYLEN, 1)]),
+    'dtls-srv-certificate-verify-trailing-bytes': tape(True, D12_RSA_GCM, True, [op(O_BODYLEN, 11)]),
+    'tls-srv-empty-finished': tape(True, RSA_GCM, False, [op(O_BODYLEN, 0)]),
+    'tls-cli-36-byte-finished': tape(False, ECDHE_GCM, False, [op(O_BODYLEN, 6)]),
+    'dtls-srv-skip-certificate-verify': tape(True, D12_RSA_GCM, True, [op(O_DEL, 4)]),
+    'dtls-srv-message-seq-gap-before-cke': tape(True, D12_RSA_GCM, False, [op(O_SEQ, 2, 0)]),
+    'dtls-cli-message-seq-repeat-on-certificate': tape(False, D12_RSA_GCM, False, [op(O_SEQ, 2, 1)]),
+    'dtls-srv-finished-on-epoch-0': tape(True, D12_ECDHE_GCM, False, [op(O_EPOCH, 4, 1)]),
+    'dtls-cli-ccs-on-epoch-1': tape(False, D12_RSA_GCM, False, [op(O_EPOCH, 4, 0)]),
+    'dtls-srv-retransmitted-cke-ignored': tape(True, D12_RSA_GCM, False, [op(O_DUP, 2, 1)]),
+    'dtls-cli-bad-finished': tape(False, D12_RSA_GCM, False, [op(O_FLIPFIN, 3)]),
+    'dtls-srv-without-ccs': tape(True, D12_RSA_GCM, False, [op(O_DEL, 3)]),
+    'dtls-cli-fragmented-finished-zero': tape(False, D12_RSA_GCM, False, [op(O_FINFRAG, 2, ZERO)]),
+    'dtls-srv-fragmented-finished-honest': tape(True, D12_RSA_GCM, False, [op(O_FINFRAG, 2, HONEST)]),
     'cli-resumed-abbreviated-when-full-expected': tape(False, RSA_GCM, False, [op(O_MODE, 2)]),
 }
 
